@@ -43,6 +43,7 @@ type outcome struct {
 	okAfter     int            // commands that succeeded after the cut
 	maskedDiffs map[string]int // known-finding classes that were needed to make A/C equal
 	results     []string
+	fieldsAtCut map[string]bool // "Type.Field" names that were non-zero in the catalogue the snapshot was taken from
 }
 
 // checkConverge is the oracle: A and B apply everything (answers equal, whitelisted catalogue equal after every step); C restores a
@@ -85,6 +86,7 @@ func checkConverge(cs *Case) (out outcome) {
 			return
 		}
 		if i == cs.Cut {
+			out.fieldsAtCut = mg.FieldsSet(b.Data())
 			snap, err := b.SnapshotBytes()
 			if err != nil {
 				out.violation = fmt.Sprintf("snapshot after op %d failed: %v", i, err)
@@ -198,7 +200,12 @@ func runConverge(t *rapid.T, c *ev.Case, campaign string, prof mg.Profile, maxLe
 		cs.describe()
 		c.Failf(t, prop, cs, "applying op %d (%s) panicked: %s", len(g.Ops)-1, g.Ops[len(g.Ops)-1], g.Panic)
 	}
+	// every position is drawn; half of the cases take it from the second half of the log, where the snapshotted catalogue is richer
+	// (more catalogue fields hold a non-zero value when the snapshot is taken, see the "field non-zero at snapshot" classes)
 	cs.Cut = mg.Uniform(t, 0, len(g.Ops)-1, "cut")
+	if rapid.Bool().Draw(t, "lateCut") {
+		cs.Cut = mg.Uniform(t, len(g.Ops)/2, len(g.Ops)-1, "cutLate")
+	}
 	out := checkConverge(cs)
 	// a fourth replica for free: the generator's own instance applied the same log
 	if out.violation == "" {
@@ -243,6 +250,11 @@ func runConverge(t *rapid.T, c *ev.Case, campaign string, prof mg.Profile, maxLe
 		c.Excluded(k)
 	}
 	addTotals(campaign, g)
+	// fields populated: a field that is zero in the snapshotted catalogue cannot reveal that clone / marshal / unmarshal forgets it
+	for k := range out.fieldsAtCut {
+		c.Class("field non-zero at snapshot: " + k)
+	}
+	addFieldTotals(campaign, out.fieldsAtCut)
 	if out.okBefore >= 10 && out.okAfter >= 3 {
 		c.Nontrivial(cs)
 		c.Sample(map[string]any{"cfg": cfg, "ops": len(g.Ops), "cut": cs.Cut, "ok_before_cut": out.okBefore, "ok_after_cut": out.okAfter, "first_ops": head(cs, 8)})
@@ -286,6 +298,21 @@ func addTotals(campaign string, g *mg.Gen) {
 		note[k] = fmt.Sprintf("generated %d, succeeded %d", m[k][0], m[k][1])
 	}
 	ev.Note(campaign, "ops_per_command_type_in_one_process", note)
+}
+
+var fieldTotals = map[string]*mg.FieldTotals{}
+
+// addFieldTotals keeps, per process, the "fields populated" summary: in how many snapshotted catalogues each catalogue field was
+// non-zero, and which fields of the catalogue types no generated history ever populated.
+func addFieldTotals(campaign string, set map[string]bool) {
+	ft := fieldTotals[campaign]
+	if ft == nil {
+		ft = &mg.FieldTotals{}
+		fieldTotals[campaign] = ft
+	}
+	ft.Add(set)
+	pop, never := ft.Summary()
+	ev.Note(campaign, "fields_populated_at_snapshot_in_one_process", map[string]any{"snapshots": ft.Cases, "non_zero_in_n_snapshots": pop, "never_populated": never})
 }
 
 // known applies the generator-side exclusions of still-open known-finding classes. All C15 classes are repaired: none is left.
